@@ -132,3 +132,8 @@ fn test_contains() {
             .contains("192.168.0.100".parse().unwrap())
     );
 }
+
+#[cfg(feature = "isomer_erbium_verif")]
+mod isomer_erbium_verif {
+    include!(concat!(env!("ISOMER_ERBIUM_VERIF_DIR"), "/net_lib.rs"));
+}
